@@ -47,6 +47,13 @@ Theorem C07_installed :
 Proof. exact installed_wrappers. Qed.
 Print Assumptions C07_installed.
 
+(* The constructor wraps what it is given: wrappers already in front of the primitive (e.g. a mutex shared with another
+   solver) stay in the chain handed to the evaluators, in order.  The harness checks the real constructor against this by
+   object identity on pre-wrapped primitives and by a two-solver concurrent run (seeded mutation C07-p1). *)
+Theorem C07_install_keeps_wrappers : forall me ex p, exists pre, chain (install me ex p) = pre ++ chain p.
+Proof. exact install_keeps_wrappers. Qed.
+Print Assumptions C07_install_keeps_wrappers.
+
 (* a reachable state in which the primitive is in use exists: the theorem is not about an empty set *)
 Example C07_nonvacuous :
   exists st, reachable (head true) st /\ exists t th, nth_error (threads st) t = Some th /\ in_use th = true.
